@@ -806,7 +806,7 @@ func (ba *boundsAnalysis) houdini(c *bfn) {
 					l := linAtom("len(P:" + prm.Name() + ")")
 					c.nonneg["len(P:"+prm.Name()+")"] = true
 					lc := l
-					cands = append(cands, cand{ph, linAtom("V#" + ph.Name()).add(lc, -1), func(t lin) lin { return t.add(lc, -1) }})
+					cands = append(cands, cand{ph, linAtom("V#"+ph.Name()).add(lc, -1), func(t lin) lin { return t.add(lc, -1) }})
 				}
 			}
 		}
